@@ -49,6 +49,9 @@ def witness(c):
     return isacheck.group_witness(bv.M.describe_assign(bv.M.sat_one(c)))
 
 
+imprecise_seen = {}
+
+
 def make(facts):
     bv.reset()
     bm = BusModel(facts)
@@ -131,6 +134,7 @@ def store_writers(facts, stores):
 
 def run(ctx, res):
     facts = ctx["facts"]
+    imprecise_seen.clear()
     res.explanation = __doc__.split("\n\n", 1)[1].replace("\n", " ")
     res.rule = "forall addr in 2^32, value: outcome/effects of Bus::read, Bus::write == region table + (store, addr-START) map; who-may-write table over all bodies"
     res.trusted = ["rustc MIR", "h8facts", "interp.py/models.py transfer functions", "bdd.py", "region table of rules/c09.py (from the property statement)"]
@@ -184,6 +188,7 @@ def run(ctx, res):
             total = Mx.OR(total, st.pc)
             if any(t in st.tags for t in ("opaque-switch", "opaque-assert", "unknown-callee")):
                 res.errors.append("imprecise trace in Bus::%s: %r" % (which, st.tags))
+                imprecise_seen[which] = True
                 continue     # an imprecisely followed trace decides nothing
             if o.kind == "panic" and any(t in st.tags for t in ("opaque-switch", "opaque-assert", "unknown-callee", "unwrap-opaque")):
                 continue
@@ -288,6 +293,9 @@ def run(ctx, res):
                         res.finding("rw|%s|store-mismatch" % name, "read uses store %s, write uses %s for the %s" % (prev, sname, name), witness(care))
                 if len(res.samples) < 8:
                     res.samples.append({"op": which, "region": name, "store": sname, "index": "addr-0x%x" % lo, "index_bits": nb})
+        if imprecise_seen.get(which):
+            acc[which] = okset
+            continue      # the accepted set cannot be compared when some traces were not followed precisely
         if total != 1:
             res.errors.append("traces of Bus::%s do not cover all addresses" % which)
         acc[which] = okset
